@@ -18,6 +18,8 @@ for key, lm in sorted(LEMMAS.items()):
             doms.append(range(spec.lo if spec.lo is not None else -4, (spec.hi if spec.hi is not None else 4) + 1))
         elif isinstance(spec, Bool):
             doms.append([False, True])
+        elif isinstance(spec, SeqOf) and n == "keys":
+            doms.append([[], ["a"], ["a", "b", "a"]])
         elif isinstance(spec, SeqOf):
             doms.append([[], [5], [5, 6, 7]])
         elif isinstance(spec, Str):
@@ -25,12 +27,16 @@ for key, lm in sorted(LEMMAS.items()):
         else:
             raise SystemExit(f"engine lemma {key}: parameter kind not sampled")
     native = [bool(lm.fn(*vals)) for vals in itertools.product(*doms)]
+    canary = lm.expect_sat
+    lm.expect_sat = False          # raw verdict of the engine: discharged = proved, violated = refuted
     rec = _lemma_worker(key)
-    proved = rec["status"] == "discharged"   # for a canary: 'discharged' means REFUTED as expected
-    if lm.expect_sat:
-        ok = (not all(native)) and proved
+    lm.expect_sat = canary
+    proved, refuted = rec["status"] == "discharged", rec["status"] == "violated"
+    if canary:
+        # sound encoder: a statement CPython refutes is never proved (refuted, or outside the modelled subset)
+        ok = (not all(native)) and not proved
         what = (f"canary: CPython refutes it on {native.count(False)} of {len(native)} arguments; engine: "
-                f"{'refuted' if proved else rec['status'] + ' ' + (rec['detail'] or '')[:160]}")
+                f"{'refuted' if refuted else 'PROVED' if proved else 'not decided (' + (rec['detail'] or '')[:120] + ')'}")
     else:
         ok = all(native) and proved
         what = f"CPython: true on all {len(native)} arguments; engine: {rec['status']} {(rec['detail'] or '')[:200]}"
